@@ -1,15 +1,373 @@
+// c07: standard jq programs in fq versus the bare embedded engine (JqCore.tla is the third voice).
+//
+//	c07 replay <cases.ndjson> <events.ndjson> [single_every]   TLC-emitted {id, prog, ast, input, inputs, out, side, core}
+//	c07 rand <n> <events.ndjson>                               seeded grammar generator (gen.go) beyond the TLA+ universe
+//	c07 probe <prog> <input json> [inputs json array]          one program, both sides, printed
+//
+// Every program goes through fq's command line evaluation path (interp.Main -> _main -> _cli_eval -> rewrite -> _eval with
+// fq's init.jq included): in batches (one command line expression evaluating many programs on their inputs, values and error
+// values exact) and, for programs using the side channel or input/inputs and for a seeded sample of the others, as the plain
+// command line `fq -nc --argjson __vin V '$__vin | PROG' [input files]` (stdout lines, stderr, exit status).
+// The reference is gojq.Parse/Compile/Run without any of fq's definitions (jqrun.GojqCompile).
+// The harness records; TLC (TraceJq.tla) compares fq with the reference and, inside the core, both with JqCore.Run.
 package main
 
 import (
+	"encoding/json"
 	"fmt"
 	"os"
+	"regexp"
+	"runtime"
+	"sort"
+	"strings"
+	"sync"
 	"time"
 
 	"github.com/wader/fq/internal/verif/c07/jqrun"
+	"github.com/wader/fq/internal/verif/kit"
 )
 
+type tcase struct {
+	ID     []string        `json:"id"`
+	Prog   string          `json:"prog"`
+	Ast    json.RawMessage `json:"ast,omitempty"`
+	Input  json.RawMessage `json:"input"`
+	Inputs json.RawMessage `json:"inputs,omitempty"`
+	Out    json.RawMessage `json:"out,omitempty"`
+	Side   json.RawMessage `json:"side,omitempty"`
+	Core   *bool           `json:"core,omitempty"`
+	Lits   json.RawMessage `json:"lits,omitempty"`
+}
+
+// tagged value (JsonVal.tla) -> JSON text
+func untag(v any) string {
+	m := v.(map[string]any)
+	str := func(a any) string {
+		var sb strings.Builder
+		for _, c := range a.([]any) {
+			sb.WriteRune(rune(int(c.(float64))))
+		}
+		return sb.String()
+	}
+	switch m["t"] {
+	case "null", "true", "false":
+		return m["t"].(string)
+	case "num":
+		return fmt.Sprintf("%d", int64(m["n"].(float64)))
+	case "big":
+		return str(m["b"])
+	case "str":
+		b, _ := json.Marshal(str(m["s"]))
+		return string(b)
+	case "arr":
+		xs := m["v"].([]any)
+		parts := make([]string, len(xs))
+		for i := range xs {
+			parts[i] = untag(xs[i])
+		}
+		return "[" + strings.Join(parts, ",") + "]"
+	case "obj":
+		ks, vs := m["k"].([]any), m["v"].([]any)
+		parts := make([]string, len(ks))
+		for i := range ks {
+			b, _ := json.Marshal(str(ks[i]))
+			parts[i] = string(b) + ":" + untag(vs[i])
+		}
+		return "{" + strings.Join(parts, ",") + "}"
+	}
+	kit.Fatalf("untag: %v", v)
+	return ""
+}
+
+func untagRaw(raw json.RawMessage) string {
+	var v any
+	kit.Unmarshal(raw, &v)
+	return untag(v)
+}
+
+var sideRe = regexp.MustCompile(`\b(debug|stderr|input|inputs|input_filename|halt|halt_error|input_line_number)\b`)
+var inputRe = regexp.MustCompile(`\b(input|inputs|halt|halt_error|input_filename|input_line_number)\b`)
+
+type event map[string]any
+
+type work struct {
+	c      tcase
+	input  string   // JSON text
+	inputs []string // JSON texts
+	ev     event
+}
+
+// reference side
+func runRef(w *work, c *jqrun.Compiled) {
+	in, _ := jqrun.DecodeJSON(w.input)
+	var ins []any
+	for _, s := range w.inputs {
+		v, _ := jqrun.DecodeJSON(s)
+		ins = append(ins, v)
+	}
+	g := c.Run(in, ins, 2*time.Second)
+	w.ev["gj"] = g.Out
+	w.ev["gj_side"] = g.Side
+}
+
+// plain command line: `fq -nc --argjson __vin V '$__vin | PROG' in0.json in1.json ...`
+func runSingle(w *work) {
+	files := map[string]string{}
+	args := []string{"fq", "-nc", "--argjson", "__vin", w.input, "$__vin | " + w.c.Prog + "\n"}
+	for i, s := range w.inputs {
+		name := fmt.Sprintf("in%d.json", i)
+		files[name] = s + "\n"
+		args = append(args, name)
+	}
+	r := jqrun.Fq(args, files, nil, 20*time.Second)
+	one := map[string]any{"exit": r.Exit, "timeout": r.TimedOut, "panic": r.Panicked}
+	outs := []jqrun.Outcome{}
+	bad := ""
+	for _, line := range strings.Split(r.Stdout, "\n") {
+		if line == "" {
+			continue
+		}
+		t, err := jqrun.ParseJSONText(line)
+		if err != nil {
+			bad = "stdout line is not JSON: " + line
+			break
+		}
+		outs = append(outs, jqrun.Outcome{"k": "v", "v": t})
+	}
+	if r.Exit == 5 {
+		outs = append(outs, jqrun.Outcome{"k": "e"})
+	} else if r.Exit != 0 {
+		bad = fmt.Sprintf("exit %d: %s", r.Exit, r.Stderr)
+	}
+	one["out"] = outs
+	one["stderr"] = r.Stderr
+	if bad != "" {
+		one["bad"] = bad
+	}
+	w.ev["cli"] = one
+}
+
+func replay(cases []tcase, singleEvery int) []event {
+	ws := make([]*work, len(cases))
+	byProg := map[string][]int{}
+	var progs []string
+	for i := range cases {
+		c := cases[i]
+		w := &work{c: c, input: untagRaw(c.Input), ev: event{"id": c.ID, "prog": c.Prog, "input": c.Input}}
+		if len(c.Inputs) > 0 {
+			var xs []any
+			kit.Unmarshal(c.Inputs, &xs)
+			for _, x := range xs {
+				w.inputs = append(w.inputs, untag(x))
+			}
+			w.ev["inputs"] = c.Inputs
+		}
+		if len(c.Ast) > 0 {
+			w.ev["ast"] = c.Ast
+		}
+		if len(c.Lits) > 0 {
+			w.ev["lits"] = c.Lits
+		}
+		if c.Core != nil {
+			w.ev["spec"] = map[string]any{"out": c.Out, "side": c.Side, "core": *c.Core}
+		}
+		ws[i] = w
+		if _, ok := byProg[c.Prog]; !ok {
+			progs = append(progs, c.Prog)
+		}
+		byProg[c.Prog] = append(byProg[c.Prog], i)
+	}
+	// reference side, and which programs it compiles at all
+	compiled := map[string]*jqrun.Compiled{}
+	skip := map[string]bool{}
+	var batchable []string
+	for _, p := range progs {
+		c, cerr := jqrun.GojqCompile(p)
+		if c == nil {
+			for _, i := range byProg[p] {
+				ws[i].ev["gj_compile"] = cerr
+			}
+			continue
+		}
+		compiled[p] = c
+		for _, i := range byProg[p] {
+			runRef(ws[i], c)
+		}
+		// a Go panic of the bare engine is a defect of the dependency (recorded, not judged); fq would only repeat it
+		panicked := false
+		for _, i := range byProg[p] {
+			if g, ok := ws[i].ev["gj"].([]jqrun.Outcome); ok && len(g) > 0 && g[len(g)-1]["k"] == "x" {
+				if why, _ := g[len(g)-1]["why"].(string); strings.HasPrefix(why, "panic") {
+					panicked = true
+				}
+			}
+		}
+		if panicked {
+			for _, i := range byProg[p] {
+				ws[i].ev["engine_panic"] = true
+			}
+			compiled[p] = nil
+			delete(compiled, p)
+			skip[p] = true
+			continue
+		}
+		if !inputRe.MatchString(p) {
+			batchable = append(batchable, p)
+		}
+	}
+	// fq, batch arm
+	const B = 150
+	var wg sync.WaitGroup
+	sem := make(chan struct{}, max(2, runtime.NumCPU()/2))
+	var mu sync.Mutex
+	var runBatch func(ps []string)
+	runBatch = func(ps []string) {
+		// distinct inputs of the batch; every program is evaluated on its own inputs only
+		idx := map[string]int{}
+		var vin []string
+		sel := make([][]int, len(ps))
+		for k, p := range ps {
+			for _, i := range byProg[p] {
+				j, ok := idx[ws[i].input]
+				if !ok {
+					j = len(vin)
+					idx[ws[i].input] = j
+					vin = append(vin, ws[i].input)
+				}
+				sel[k] = append(sel[k], j)
+			}
+		}
+		r := jqrun.Fq([]string{"fq", "-nc", "--argjson", "__vin", "[" + strings.Join(vin, ",") + "]", jqrun.BatchExprSel(ps, sel)}, nil, nil, 60*time.Second)
+		var got [][][]jqrun.Outcome
+		var err error
+		if !r.TimedOut && r.Exit == 0 {
+			got, err = jqrun.ParseBatchSel(r.Stdout, sel)
+		}
+		if r.TimedOut || r.Exit != 0 || err != nil {
+			if len(ps) > 1 {
+				runBatch(ps[:len(ps)/2])
+				runBatch(ps[len(ps)/2:])
+				return
+			}
+			mu.Lock()
+			for _, i := range byProg[ps[0]] {
+				ws[i].ev["fq_failed"] = fmt.Sprintf("exit=%d timeout=%v panic=%v err=%v stderr=%.300s", r.Exit, r.TimedOut, r.Panicked, err, r.Stderr)
+			}
+			mu.Unlock()
+			return
+		}
+		mu.Lock()
+		for k, p := range ps {
+			for n, i := range byProg[p] {
+				ws[i].ev["fq"] = got[k][n]
+			}
+		}
+		mu.Unlock()
+	}
+	for lo := 0; lo < len(batchable); lo += B {
+		hi := min(lo+B, len(batchable))
+		wg.Add(1)
+		sem <- struct{}{}
+		go func(ps []string) {
+			defer wg.Done()
+			defer func() { <-sem }()
+			runBatch(ps)
+		}(batchable[lo:hi])
+	}
+	// fq, plain command line arm: side-channel / input programs always, the rest sampled
+	n := 0
+	for pi, p := range progs {
+		if skip[p] {
+			continue
+		}
+		if compiled[p] == nil {
+			// a program the reference rejects must be rejected by fq too: one plain run
+			i := byProg[p][0]
+			wg.Add(1)
+			sem <- struct{}{}
+			go func(w *work) { defer wg.Done(); defer func() { <-sem }(); runSingle(w) }(ws[i])
+			continue
+		}
+		always := sideRe.MatchString(p)
+		for k, i := range byProg[p] {
+			if always || (singleEvery > 0 && k == 0 && pi%singleEvery == int(kit.Seed())%singleEvery) {
+				n++
+				wg.Add(1)
+				sem <- struct{}{}
+				go func(w *work) { defer wg.Done(); defer func() { <-sem }(); runSingle(w) }(ws[i])
+			}
+		}
+	}
+	wg.Wait()
+	evs := make([]event, len(ws))
+	for i, w := range ws {
+		evs[i] = w.ev
+	}
+	return evs
+}
+
 func main() {
-	t := time.Now()
-	r := jqrun.Fq(append([]string{"fq"}, os.Args[1:]...), nil, nil, 60*time.Second)
-	fmt.Println(len(r.Stdout), r.Exit, time.Since(t))
+	if len(os.Args) < 2 {
+		kit.Fatalf("usage")
+	}
+	switch os.Args[1] {
+	case "replay":
+		var cases []tcase
+		kit.Cases(os.Args[2], func(_ int, raw []byte) {
+			var c tcase
+			kit.Unmarshal(raw, &c)
+			cases = append(cases, c)
+		})
+		every := 0
+		if len(os.Args) > 4 {
+			every = kit.Atoi(os.Args[4])
+		}
+		out := kit.NewOut(os.Args[3])
+		for _, e := range replay(cases, every) {
+			out.Emit(e)
+		}
+		out.Close()
+	case "rand":
+		cases := generate(kit.Atoi(os.Args[2]))
+		out := kit.NewOut(os.Args[3])
+		for _, e := range replay(cases, 25) {
+			out.Emit(e)
+		}
+		out.Close()
+	case "probe":
+		ins := []string{}
+		if len(os.Args) > 4 {
+			var xs []json.RawMessage
+			kit.Unmarshal([]byte(os.Args[4]), &xs)
+			for _, x := range xs {
+				ins = append(ins, string(x))
+			}
+		}
+		in, err := jqrun.ParseJSONText(os.Args[3])
+		if err != nil {
+			kit.Fatalf("input: %v", err)
+		}
+		inb, _ := json.Marshal(in)
+		c := tcase{ID: []string{"probe"}, Prog: os.Args[2], Input: inb}
+		if len(ins) > 0 {
+			var tg []any
+			for _, s := range ins {
+				t, _ := jqrun.ParseJSONText(s)
+				tg = append(tg, t)
+			}
+			c.Inputs, _ = json.Marshal(tg)
+		}
+		e := replay([]tcase{c}, 1)[0]
+		keys := make([]string, 0, len(e))
+		for k := range e {
+			keys = append(keys, k)
+		}
+		sort.Strings(keys)
+		for _, k := range keys {
+			b, _ := json.Marshal(e[k])
+			fmt.Printf("%s: %s\n", k, b)
+		}
+	default:
+		kit.Fatalf("unknown mode")
+	}
 }
